@@ -291,7 +291,13 @@ fn cli_sample(rt: &Runtime, rep: &mut StageReport) -> Vec<(serde_json::Value, St
         let other = &files[(fi + 1) % files.len()];
         while done < per_file && attempts < per_file * 20 {
             attempts += 1;
-            let fault = if attempts % 2 == 0 { Fault::Truncate((rng.next() % len as u64) as usize) } else { Fault::Flip((rng.next() % (len as u64 * 8)) as usize) };
+            // the shortest prefixes first (an interrupted save of a small file leaves 0 bytes), then random faults
+            let fault = match attempts {
+                1 => Fault::Truncate(0),
+                2 => Fault::Truncate(1),
+                3 => Fault::Truncate(len - 1),
+                _ => if attempts % 2 == 0 { Fault::Truncate((rng.next() % len as u64) as usize) } else { Fault::Flip((rng.next() % (len as u64 * 8)) as usize) },
+            };
             let dir = ctx.case_dir();
             let data = apply(&f.bytes, fault);
             // every other damaged file carries no .skf suffix and has an intact sibling "<name>.skf"
